@@ -431,6 +431,37 @@ class World:
         self.emit(op, {"err": err_name(err)})
         return h, err
 
+    def enc_xml(self, c, force_types=False):
+        """writer channel: infoset of the PROV-XML text the implementation emits"""
+        from . import xmltree
+        try:
+            text = self.conts[c].serialize(format="xml", force_types=force_types)
+            out = {"tree": xmltree.canon_with_bundle_ns(xmltree.dump(xmltree.parse(text)))}
+        except Exception as e:  # noqa
+            text = None
+            out = {"tree": None, "err": err_name(e)}
+        self.emit({"op": "enc_xml", "c": c, "ft": bool(force_types)}, out)
+        return text
+
+    def dec_xml(self, text):
+        """reader channel: the same XML (as an infoset tree) to the implementation's reader and the model's"""
+        from . import xmltree
+        tree = xmltree.dump(xmltree.parse(text))
+        hints = [{"lex": k, "f": v} for k, v in xmltree.double_hints(tree).items()]
+        op = {"op": "dec_xml", "tree": tree, "hints": hints}
+        try:
+            d = ProvDocument.deserialize(content=text, format="xml")
+            err = None
+        except Exception as e:  # noqa
+            d = None
+            err = e
+        h = None
+        if d is not None:
+            h = self.bind_cont(d)
+            op["as"] = h
+        self.emit(op, {"err": err_name(err)})
+        return h, err
+
     def obs(self, c):
         o = proto.canon_cont(self.conts[c])
         self.emit({"op": "obs", "c": c}, o)
@@ -507,6 +538,11 @@ def diff_outputs(ops, impl_outs, model_outs):
         if "fatal" in b:
             return i, "model-fatal: %s" % b["fatal"]
         proto.normalize_model_obs(b)
+        if ops[i]["op"] == "enc_xml" and b.get("tree") is not None:
+            from . import xmltree
+            b = {"tree": xmltree.canon_with_bundle_ns(b["tree"])}
+            if a.get("tree") is None:
+                continue      # the implementation's writer raised (name not expressible in XML): not comparable
         if ops[i]["op"] == "enc_json":
             if b.get("unspecified"):
                 continue          # outside the model's envelope (counted by the caller)
